@@ -356,6 +356,12 @@ nextFileMatch:
 	}
 
 	for _, md := range d.repoMetaData {
+		// 🚨 SECURITY: the URL templates are keyed by repository name. Do not reveal
+		// repositories that are hidden from this search (tombstoned, or owned by
+		// another tenant).
+		if md.Tombstone || !tenant.HasAccess(ctx, md.TenantID) {
+			continue
+		}
 		r := md
 		addRepo(&res, &r)
 		for _, v := range r.SubRepoMap {
